@@ -100,6 +100,9 @@ def negate(c):
         args = [T.dec(x) for x in a[2]]
         if f == "not":
             return args[0]
+        if f in ("and", "or") and all(isinstance(x, T.Poly) for x in args):
+            # De Morgan: negation is pushed inwards, so `not (a and b)` and `not a or not b` are one condition
+            return T.app("or" if f == "and" else "and", *[negate(x) for x in args])
         if f in ("eq", "ne", "is", "isnot", "in", "notin"):
             return T.app(NEG[f], *args)
         if f == "lt":  # not (a < b) == b <= a
@@ -126,6 +129,17 @@ def negate(c):
 
 def is_tuple(v):
     return isinstance(v, tuple)
+
+
+def conjuncts(c):
+    """a condition as the list of conditions that all hold: and(a, b) -> [a, b] (recursively)"""
+    a = c.single_atom() if isinstance(c, T.Poly) else None
+    if a is not None and a[0] == "app" and a[1] == "and":
+        out = []
+        for x in a[2]:
+            out.extend(conjuncts(T.dec(x)))
+        return out
+    return [c]
 
 
 REAL_NUMPY = {"ones", "zeros", "size", "arange", "linspace", "shape", "mgrid", "isinf", "isnan", "argmax", "argmin", "histogram", "floor", "ceil"}
@@ -581,17 +595,29 @@ class VN:
         env2 = State(st.env, st.conds)
         iters = []
         k = 0
-        if len(e.generators) == 1 and not e.generators[0].ifs:
+        if len(e.generators) == 1:
             # a comprehension over a sequence of statically known length is the tuple of its element values (as the loop it abbreviates
-            # would be unrolled)
+            # would be unrolled); filters must be decidable for every element
             it0 = self.ev(e.generators[0].iter, env2)
             if is_tuple(it0) and len(it0) <= 16:
                 vals = []
+                decided = True
                 for elem in it0:
                     env3 = State(st.env, st.conds, alias=st.alias)
                     self.assign(e.generators[0].target, elem, env3, e)
-                    vals.append(self.ev(e.elt, env3))
-                return tuple(vals)
+                    keep = True
+                    for c in e.generators[0].ifs:
+                        cv = self._as_term(self.ev(c, env3))
+                        if cv == FALSE:
+                            keep = False
+                        elif cv != TRUE:
+                            decided = False
+                    if not decided:
+                        break
+                    if keep:
+                        vals.append(self.ev(e.elt, env3))
+                if decided:
+                    return tuple(vals)
         for g in e.generators:
             it = self.ev(g.iter, env2)
             # zip(a, b) -> parallel iteration
@@ -834,7 +860,17 @@ class VN:
         o = outs[0]
         if len(o.conds) != len(st.conds):
             raise Unrecognised("inlined helper %s branches" % fn.qual, call)
+        # parameters the callee *rebinds* (`axis = axis % ndim`) never change the caller's object; only in-place updates are written back
+        rebound = set()
+        for n_ in ast.walk(fn.node):
+            tg_ = n_.targets if isinstance(n_, ast.Assign) else ([n_.target] if isinstance(n_, (ast.AnnAssign, ast.For)) else [])
+            for t_ in tg_:
+                for x_ in ast.walk(t_):
+                    if isinstance(x_, ast.Name) and isinstance(x_.ctx, ast.Store):
+                        rebound.add(x_.id)
         for p, k in back.items():
+            if p in rebound:
+                continue
             if o.env.get(p) is not env[p] and o.env.get(p) != env[p]:
                 st.update_in_place(k, o.env[p])
         if is_self_call:
@@ -988,6 +1024,21 @@ class VN:
             return tuple((T.const(i), x) for i, x in enumerate(a0))
         if short == "reversed" and is_tuple(a0):
             return tuple(reversed(a0))
+        if short == "reversed" and isP and not kw and len(args) == 1:
+            return T.app("getitem", a0, REVERSE)  # same elements as seq[::-1]
+        if short in ("any", "all") and is_tuple(a0) and len(args) == 1 and not kw and all(isinstance(x, T.Poly) for x in a0) \
+                and not full.startswith("numpy"):
+            is_and = short == "all"
+            keep = []
+            for v in a0:
+                if v == (TRUE if is_and else FALSE):
+                    continue
+                if v == (FALSE if is_and else TRUE):
+                    return v
+                keep.append(v)
+            if not keep:
+                return TRUE if is_and else FALSE
+            return keep[0] if len(keep) == 1 else T.app("and" if is_and else "or", *keep)
         if short == "range":
             ints = [x.as_fraction() if isinstance(x, T.Poly) else None for x in args]
             if args and all(i is not None and i.denominator == 1 for i in ints) and len(range(*[int(i) for i in ints])) <= 16:
@@ -1175,10 +1226,14 @@ class VN:
             if is_tuple(c):
                 c = TRUE if len(c) > 0 else FALSE  # truthiness of a sequence of known length
             nc = negate(c)
-            if any(c == k for k in st.conds):
+            if all(any(x == k for k in st.conds) for x in conjuncts(c)):
                 return self.block(s.body, [st])
-            if any(nc == k for k in st.conds):
+            if all(any(x == k for k in st.conds) for x in conjuncts(nc)):
                 return self.block(s.orelse, [st])
+            if any(negate(x) == k for x in conjuncts(c) for k in st.conds):
+                return self.block(s.orelse, [st])  # one conjunct is already known to be false
+            if any(negate(x) == k for x in conjuncts(nc) for k in st.conds):
+                return self.block(s.body, [st])
             if c == TRUE:
                 return self.block(s.body, [st])
             if c == FALSE:
@@ -1187,8 +1242,12 @@ class VN:
             if fr is not None:  # truthiness of a numeric constant
                 return self.block(s.body if fr != 0 else s.orelse, [st])
             s1, s2 = st.fork(), st.fork()
-            s1.conds.append(c)
-            s2.conds.append(nc)
+            for x in conjuncts(c):
+                if not any(x == k for k in s1.conds):
+                    s1.conds.append(x)
+            for x in conjuncts(nc):
+                if not any(x == k for k in s2.conds):
+                    s2.conds.append(x)
             return self.block(s.body, [s1]) + self.block(s.orelse, [s2])
         if isinstance(s, (ast.FunctionDef,)):
             st.env[s.name] = Closure(s, st.env, self.func)
